@@ -10,7 +10,7 @@ Local Open Scope Z_scope.
 
 (* ghost data carried by a heap object: created at clock t_add with duration t_dur *)
 Definition tm_ok (tm : tmr) : Prop :=
-  t_exp tm = expire_of fixed (t_add tm) (t_dur tm) /\ u64 (t_add tm) /\ u64 (t_dur tm).
+  t_exp tm = expire_of fixed (t_add tm) (t_dur tm) /\ u64 (t_add tm) /\ u64 (t_dur tm) /\ 0 < t_add tm.
 
 Definition ev_ok (e : ev) : Prop :=
   match e with
@@ -157,8 +157,8 @@ Proof.
   apply W_emit; [|exact I]. apply W_push_issued. apply W_put_slot.
   - apply W_set_heap; [assumption|]. intros tm Htm.
     destruct (heap_add_in _ _ _ A tm Htm) as [X| ->]; [apply (w_heap _ H3); assumption|].
-    unfold tm_ok, timer. cbn [t_exp t_add t_dur]. split; [reflexivity|]. split; [|assumption].
-    destruct (w_clk st1 H1). unfold u64. lia.
+    unfold tm_ok, timer. cbn [t_exp t_add t_dur]. split; [reflexivity|].
+    destruct (w_clk st1 H1). split; [unfold u64; lia|]. split; [assumption|lia].
   - left. cbn [s_state]. apply (proj1 consts_neq).
 Qed.
 
@@ -168,9 +168,9 @@ Proof. intros. unfold level_item_del. destruct (existsb _ _); [apply W_set_lv|];
 Lemma W_level_item_add : forall st p it, W st -> W (level_item_add st p it).
 Proof. intros. unfold level_item_add. apply W_set_lv. assumption. Qed.
 
-Lemma W_timer_del : forall st h, W st -> W (timer_del st h).
+Lemma W_timer_del : forall fx st h, W st -> W (timer_del fx st h).
 Proof.
-  intros st h H. unfold timer_del. destruct (timer_from_handle st h) as [e|i t]; [apply W_emit; [assumption|exact I]|].
+  intros fx st h H. unfold timer_del. destruct (timer_from_handle fx st h) as [e|i t]; [apply W_emit; [assumption|exact I]|].
   set (st0 := if s_check t =? 0 then emit st (ENote 2) else st).
   assert (H0 : W st0) by (unfold st0; destruct (s_check t =? 0); [apply W_emit; [assumption|exact I]|assumption]).
   destruct (s_state t =? LT_ENTRY_DELETED); [apply W_emit; [assumption|exact I]|].
@@ -185,9 +185,9 @@ Proof.
   - apply W_emit; [|exact I]. apply W_put_slot; [assumption|]. left. cbn [with_state s_state]. apply (proj2 consts_neq).
 Qed.
 
-Lemma W_time_remaining : forall st h, W st -> W (snd (time_remaining st h)).
+Lemma W_time_remaining : forall fx st h, W st -> W (snd (time_remaining fx st h)).
 Proof.
-  intros st h H. unfold time_remaining. destruct (timer_from_handle st h) as [e|i t]; [assumption|].
+  intros fx st h H. unfold time_remaining. destruct (timer_from_handle fx st h) as [e|i t]; [assumption|].
   destruct (negb (s_state t =? LT_ENTRY_ACTIVE)); [assumption|].
   destruct (W_read_clock st H) as [H2 _]. destruct (read_clock st) as [now st2]. cbn [snd] in H2.
   destruct (_ <? now); assumption.
@@ -222,7 +222,7 @@ Proof.
   - apply W_timer_add; assumption.
   - apply W_timer_del; assumption.
   - apply W_emit; [assumption|exact I].
-  - pose proof (W_time_remaining st (resolve st r) H). destruct (time_remaining st (resolve st r)). apply W_emit; [assumption|exact I].
+  - pose proof (W_time_remaining fixed st (resolve st r) H). destruct (time_remaining fixed st (resolve st r)). apply W_emit; [assumption|exact I].
   - apply W_emit; [assumption|exact I].
   - destruct (W_msec st H) as [X _]. destruct (msec_to_expire fixed st). apply W_emit; [assumption|exact I].
   - apply W_job_add; assumption.
@@ -245,7 +245,7 @@ Qed.
 Lemma W_make_job : forall now st tm, W st -> tm_ok tm -> t_exp tm < now -> now <= clk st ->
   W (make_job_from_tmo now st tm).
 Proof.
-  intros now st tm H [T1 [T2 T3]] Lt Le. unfold make_job_from_tmo.
+  intros now st tm H [T1 [T2 [T3 _]]] Lt Le. unfold make_job_from_tmo.
   destruct (nth_slot st (t_data tm)) as [t|]; [|apply W_set_err; assumption].
   destruct (negb (s_state t =? LT_ENTRY_ACTIVE)); [apply W_set_err; assumption|].
   pose proof (W_level_item_add st (s_prio t) (ITimer (t_data tm)) H) as H1.
@@ -350,7 +350,7 @@ Lemma decide_ok : forall st rem tt jt, W st ->
                  (1000 / hz st) jt).
 Proof.
   intros st rem tt jt H. cbn [ev_ok]. destruct (entry_get (heap st) 0) as [r|] eqn:G; [|intros; lia].
-  intros _. pose proof (entry_get_in _ _ _ G) as Hin. destruct (w_heap st H r Hin) as [T1 [T2 T3]].
+  intros _. pose proof (entry_get_in _ _ _ G) as Hin. destruct (w_heap st H r Hin) as [T1 [T2 [T3 _]]].
   destruct (expire_of_fixed _ _ T2 T3) as [_ U]. rewrite <- T1 in U.
   destruct (w_clk st H). 
   destruct (choose_timeout_sound st r rem tt jt (proj1 (entry_get_at _ _ _) G) ltac:(unfold u64; lia) U (w_hz st H)) as [A [B _]].
